@@ -743,6 +743,10 @@ func genWiCase(g *Rng, cfg WiCfg, k int, gidx int) WiCase {
 	if g.Chance(45) {
 		r.Headers = append(r.Headers, [2]string{strings.TrimSpace(th), wiIDVals[g.Intn(len(wiIDVals))]})
 	}
+	// the tutorial plugin's own header, also when the ID features are configured on other names
+	if hasPlug(cfg, "request-id") && !strings.EqualFold(strings.TrimSpace(rh), "X-Request-ID") && !strings.EqualFold(strings.TrimSpace(th), "X-Request-ID") && g.Chance(60) {
+		r.Headers = append(r.Headers, [2]string{"X-Request-ID", []string{"client-chosen-1", "abc", "ID-" + strings.Repeat("L", 40)}[g.Intn(3)]})
+	}
 	for _, p := range cfg.Chain {
 		if p.Name == "custom-auth" && g.Chance(80) {
 			r.Headers = append(r.Headers, [2]string{"X-API-Key", p.Key})
